@@ -3595,6 +3595,36 @@ def normalize_module(tree: ast.Module, imported_helpers: Optional[Dict[str, ast.
         if isinstance(n, ast.ImportFrom) and n.module == 'itertools':
             COMBINATIONS.update(a.asname or a.name for a in n.names if a.name == 'combinations')
 
+    # N29: a module-level name bound exactly once to a numeric literal (and never declared global anywhere) is that literal
+    counts: Dict[str, int] = {}
+    for n in ast.walk(tree):
+        if isinstance(n, ast.Name) and isinstance(n.ctx, (ast.Store, ast.Del)):
+            counts[n.id] = counts.get(n.id, 0) + 1
+        elif isinstance(n, (ast.Global, ast.Nonlocal)):
+            for g_ in n.names:
+                counts[g_] = counts.get(g_, 0) + 2
+        elif isinstance(n, (ast.FunctionDef, ast.ClassDef)):
+            counts[n.name] = counts.get(n.name, 0) + 2
+        elif isinstance(n, ast.arg):
+            counts[n.arg] = counts.get(n.arg, 0) + 2
+        elif isinstance(n, ast.alias):
+            counts[(n.asname or n.name).split('.')[0]] = counts.get((n.asname or n.name).split('.')[0], 0) + 2
+    module_consts: Dict[str, ast.Constant] = {}
+    for st in tree.body:
+        if isinstance(st, ast.Assign) and len(st.targets) == 1 and isinstance(st.targets[0], ast.Name) \
+                and counts.get(st.targets[0].id) == 1 and isinstance(st.value, ast.Constant) \
+                and isinstance(st.value.value, (int, float)) and not isinstance(st.value.value, bool):
+            module_consts[st.targets[0].id] = st.value
+    if module_consts:
+        class _Consts(ast.NodeTransformer):
+            def visit_Name(self, node):
+                if isinstance(node.ctx, ast.Load) and node.id in module_consts:
+                    return ast.copy_location(ast.Constant(value=module_consts[node.id].value), node)
+                return node
+        for st in tree.body:
+            if isinstance(st, (ast.FunctionDef, ast.ClassDef)):
+                _Consts().visit(st)
+
     def private_methods(cls: ast.ClassDef) -> Dict[str, ast.FunctionDef]:
         out = {}
         for m in cls.body:
